@@ -21,6 +21,7 @@
 
 #include <dirent.h>
 #include <fcntl.h>
+#include <sys/resource.h>
 #include <sys/stat.h>
 #include <sys/wait.h>
 
@@ -143,7 +144,15 @@ static Result in_child(const std::function<Result()> &body, const std::function<
     if (dn >= 0) dup2(dn, 1);
     int ef = open(errf.c_str(), O_WRONLY | O_CREAT | O_TRUNC, 0644);
     if (ef >= 0) dup2(ef, 2);
-    alarm(60);
+    {
+      // a hang of the code under test: 120 s of CPU time (immune to a stalled, overloaded box) or, for a blocking
+      // hang, one hour of wall time
+      struct rlimit rl;
+      rl.rlim_cur = 120;
+      rl.rlim_max = 150;
+      setrlimit(RLIMIT_CPU, &rl);
+      alarm(3600);
+    }
     Result r;
     try {
       r = body();
@@ -562,7 +571,7 @@ static Result roundtrip_body(const json &c) {
     carry_f = hv && hf;
   }
   r.cls(nf > 1 ? "frames>=2" : "frames=1");
-  r.cls(bk == 0 ? "box-open" : bk == 1 ? "box-orthorhombic" : bk == 2 ? "box-triclinic" : "box-general-9");
+  if (F.boxcomp) r.cls(bk == 0 ? "box-open" : bk == 1 ? "box-orthorhombic" : bk == 2 ? "box-triclinic" : "box-general-9");
   if (carry_v) r.cls("velocities");
   if (carry_f) r.cls("forces");
   if (hf && !carry_f && F.force) r.cls("forces-without-velocities(not storable)");
@@ -798,7 +807,7 @@ static Result roundtrip_body(const json &c) {
         bwd[g] = type;
       }
     }
-    r.cls("names-checked");
+    r.cls(skip_names ? "excluded-known:XYZWriter/topology-units(names not compared)" : "names-checked");
   }
   return r;
 }
@@ -1322,13 +1331,14 @@ static Result run_index(const json &c) {
 
 int main(int argc, char **argv) {
   std::vector<Sub> subs;
-  for (const char *f : {"gro", "pdb", "xyz", "dump", "dlph", "dlpc"}) {
-    std::string fn = f;
-    subs.push_back({fn, [fn] { return gen_traj(fn); }, run_traj, 1.0, 100, nullptr});
-  }
-  subs.push_back({"mismatch", gen_mismatch, run_mismatch, 1.5, 100, nullptr});
+  // cheap, in-process subs first: their statistics survive a budget kill of the forking subs on a loaded box
   subs.push_back({"table", gen_table, run_table, 2.0, 100, nullptr});
   subs.push_back({"imc_matrix", gen_matrix, run_matrix, 2.0, 100, nullptr});
   subs.push_back({"imc_index", gen_index, run_index, 1.0, 100, nullptr});
+  subs.push_back({"mismatch", gen_mismatch, run_mismatch, 1.5, 100, nullptr});
+  for (const char *f : {"dlpc", "dlph", "gro", "pdb", "xyz", "dump"}) {
+    std::string fn = f;
+    subs.push_back({fn, [fn] { return gen_traj(fn); }, run_traj, 1.0, 100, nullptr});
+  }
   return harness_main(argc, argv, "C08", subs);
 }
